@@ -25,6 +25,10 @@ CHECKS = {
     'C13': ('Loop.tla', 'TLA+ spec of SimpleLoop / switch() / SwitchWorld over handles with cached world instances and per-instance gates and queues; every combination of target, clear flags and request site as Frame actions; TLC action properties OutOnceInLeft, InOnceInEntered, FrameAbandoned, LeftWorldMuted, ClearYieldsFresh; replay on the real loop with harness-owned processors, on_update listener and coroutine', '6 C13'),
     'C14': ('Loop.tla', 'clock readings as model inputs; TLC action properties FirstDtZero, DtIsDifference, LastIsReading, QuitReturnsNormally, OnQuitDeliveredInCurrent across switches, quits, errors and restarts; replay feeds the same integer readings through time_function and compares the dt seen by every site', '6 C14'),
     'C16': ('Populator.tla', 'the directory tree, rule list and options are inputs chosen by Init from enumerated families; one Call action per population computes the map the way the code does; TLC invariants compare it with the expectation computed from the statement; every scenario is materialised on disk and run through the real populator (listing order steered)', '6 C16'),
+    'C11': ('Resources.tla', 'TLA+ spec of ResourceMap shaped like tree.py (maps, ChainMap layers, parent/key back-links) with a ghost abstract tree; TLC invariants PathEquivalence, DefaultIffKeyError, HandleXorMap, LatestWins, BackLinks, ClearDetaches over all insert/clear/layer histories of the pool; every edge, depth-3 paths and random walks replayed on real maps comparing every path and every back-link', '6 C11'),
+    'C12': ('Resources.tla', 'handle cache with load counters as ghosts; invariants AtMostOneLoad, CachedTellsTruth, SameObject over every access path (call, map item, static attribute/item/get) interleaved with clears; replay with values None, 0, empty containers and an object with hostile __bool__/__eq__', '6 C12'),
+    'C15': ('WorldLoad.tla', 'world descriptions (processors, entities, ids, args/kwargs with reference strings and near-misses) enumerated by Init; the loader pipeline as stage actions; invariants LoadedEqualsDescribed, ReturnedDisabled, OnEnable; every description written as a real JSON file and loaded through real handles at two tree depths and through the dict path', '6 C15'),
+    'C17': ('Resources.tla', 'Snapshot action and accesses on it (attribute, item, get, setattr, delattr) with name classes incl. private-style, keyword and non-identifier names; invariants MirrorsMap, SnapshotSucceeds, MutationRaisesAndChangesNothing; replay on generated snapshots', '6 C17'),
     'C10': ('Dispatcher.tla', 'TLA+ spec with weakly held handlers, DropRef between calls and between two callbacks of one dispatch under every iteration order; replay with real weak references and gc', '6 C10'),
 }
 
